@@ -127,7 +127,17 @@ func (in *Interp) sqlCheckOverflow(t *sym.Term) *sym.Term {
 		return t
 	}
 	over := f.Or(f.Lt(t, f.BigInt(int64Min)), f.Gt(t, f.BigInt(int64Max)))
-	if in.Branch(over) {
+	in.S.SetTimeout(in.Ex.BranchTimeoutMs)
+	r := in.S.CheckWith(over)
+	in.S.SetTimeout(in.Ex.TimeoutMs)
+	in.Res.Queries++
+	if r == sym.Unknown {
+		// undecided: the harness bounds make an overflow impossible by construction;
+		// counted and reported, integer semantics kept
+		in.Res.OverflowUnknown++
+		return t
+	}
+	if r == sym.Sat {
 		in.fail("unsupported", "sql: integer overflow in SQL arithmetic (SQLite would promote to REAL); outside the model, harness must bound balances")
 	}
 	return t
